@@ -31,7 +31,12 @@ var c19Alphabet = []string{
 	/*10*/ "type N = &{go : 1}\nlet pc() : 1 = print p10; close self\nlet srv(d : 1) : N = case self ( go<c> => print never; wait d; close c )\nprc[a] : 1 = d <- new pc(); s <- new srv(d); drop s; print a10; close self\n",
 	/*11*/ "type T = 1\ntype S = T\nlet f(x : S) : T = fwd self x\nprc[a] : 1 = y : 1 <- new close self; z <- new f(y); wait z; print a11; close self\n",
 	/*12*/ "type T = +{l : 1}\ntype S = 1\nlet f(x : S) : T = fwd self x\nprc[a] : 1 = print a12; close self\n",
+	/*13*/ "prc[a] : 1 = print a13; close self\nprc[b] : 1 = print b13; close self\n#\n",
+	/*14*/ "print e14; close self\n",
 }
+
+// programs that are run with typechecking switched off (a bare expression has no type)
+var c19SkipTC = map[int]bool{14: true}
 
 type runOutcome struct {
 	Verdict string   `json:"verdict"` // "parse-error", "type-error", "accepted"
@@ -50,12 +55,17 @@ type histExec struct {
 }
 
 // runHistory executes the programs one after another inside ONE scheduler instance.
+// sharedRE: reuse ONE RuntimeEnvironment object for all runs of a history (InitializeProcesses
+// re-initialises it, so this is a supported way to use the API).
+var c19SharedRE bool
+
 func runHistory(hist []int, mode int, prefix []int) *histExec {
 	h := &histExec{outcomes: make([]runOutcome, len(hist))}
 	taskMark := make([]int, len(hist)+1)
 	eventMark := make([]int, len(hist)+1)
 	vfuel.Reset(explore.FuelLimit)
 	h.res = vsched.Run(prefix, vsched.Options{FreezeAfterQuiesce: true}, func() {
+		var shared *process.RuntimeEnvironment
 		for i, k := range hist {
 			taskMark[i] = vsched.NumTasks()
 			eventMark[i] = vsched.NumEvents()
@@ -67,13 +77,23 @@ func runHistory(hist []int, mode int, prefix []int) *histExec {
 				continue
 			}
 			env.LogLevels = []process.LogLevel{}
-			if err := process.Typecheck(procs, assumed, env); err != nil {
-				h.outcomes[i].Verdict = "type-error"
-				continue
+			if !c19SkipTC[k] {
+				if err := process.Typecheck(procs, assumed, env); err != nil {
+					h.outcomes[i].Verdict = "type-error"
+					continue
+				}
 			}
 			h.outcomes[i].Verdict = "accepted"
 			ev := []process.Execution_Version{process.NORMAL_ASYNC, process.NORMAL_SYNC, process.NON_POLARIZED_SYNC}[mode]
-			re := &process.RuntimeEnvironment{GlobalEnvironment: env, ExecutionVersion: ev, Typechecked: true, Color: false}
+			re := &process.RuntimeEnvironment{GlobalEnvironment: env, ExecutionVersion: ev, Typechecked: !c19SkipTC[k], Color: false}
+			if c19SharedRE {
+				if shared == nil {
+					shared = re
+				} else {
+					shared.GlobalEnvironment, shared.ExecutionVersion, shared.Typechecked = env, ev, !c19SkipTC[k]
+					re = shared
+				}
+			}
 			process.InitializeProcesses(procs, nil, nil, re)
 		}
 		taskMark[len(hist)] = vsched.NumTasks()
@@ -153,9 +173,10 @@ func soloOutcome(k, mode int) (runOutcome, error) {
 }
 
 type c19Case struct {
-	hist  []int
-	mode  int
-	delay int
+	hist   []int
+	mode   int
+	delay  int
+	shared bool
 }
 
 var c19CasesCache = map[string][]c19Case{}
@@ -181,7 +202,11 @@ func c19Cases(c *harness.Ctx) []c19Case {
 				d = 0
 			}
 			for mode := 0; mode < 2; mode++ {
-				out = append(out, c19Case{append([]int{}, h...), mode, d})
+				out = append(out, c19Case{append([]int{}, h...), mode, d, false})
+			}
+			if l == 2 {
+				// one RuntimeEnvironment object reused by both runs
+				out = append(out, c19Case{append([]int{}, h...), 0, d, true})
 			}
 			return
 		}
@@ -201,7 +226,7 @@ const c19Chunk = 20
 func init() {
 	harness.Register(&harness.Check{
 		ID: "C19", Level: "model_checking",
-		Rule: "breadth-first over histories: all sequences of length <= 3 over an alphabet of 13 programs chosen to leave residue (unparseable, illegal character, two rejected programs, silent, printing with goroutines left blocked after cancellation, exec counter, multi-name provider, two programs reusing type/function/process names with different meanings, a drop cascade, two programs reusing type names with equal / unequal definitions), in async and sync polarized mode, each history executed inside ONE scheduler instance so that tasks left over from earlier runs stay schedulable during later ones, over all schedules with delay <= 1 (delay <= 2 for length <= 2 in the thorough tier); thorough also all histories of length 4 under the default schedule; differential oracle: verdict, printed multiset and panics of the i-th run equal those of the same program run alone in a FRESH process; no task panics at all (a panic kills the host and every later run); no task of an earlier run prints during a later run; a worker process executes many histories one after another, so state leaking between histories is detected as well; states/transitions as in C01",
+		Rule: "breadth-first over histories: all sequences of length <= 3 over an alphabet of 15 programs chosen to leave residue (unparseable, illegal character, two rejected programs, silent, printing with goroutines left blocked after cancellation, exec counter, multi-name provider, two programs reusing type/function/process names with different meanings, a drop cascade, two programs reusing type names with equal / unequal definitions, valid statements followed by an illegal character, a bare expression run without typechecking), in async and sync polarized mode, each history executed inside ONE scheduler instance (all histories of length 2 additionally with ONE RuntimeEnvironment object reused by both runs) so that tasks left over from earlier runs stay schedulable during later ones, over all schedules with delay <= 1 (delay <= 2 for length <= 2 in the thorough tier); thorough also all histories of length 4 under the default schedule; differential oracle: verdict, printed multiset and panics of the i-th run equal those of the same program run alone in a FRESH process; no task panics at all (a panic kills the host and every later run); no task of an earlier run prints during a later run; a worker process executes many histories one after another, so state leaking between histories is detected as well; states/transitions as in C01",
 		Assumptions: append([]string{"prints and panics are attributed to runs by the epoch in which their task was created"}, mcAssumptions...),
 		Cases:       func(c *harness.Ctx) int { return (len(c19Cases(c)) + c19Chunk - 1) / c19Chunk },
 		Run: func(c *harness.Ctx, idx int, r *harness.Rec) {
@@ -214,6 +239,8 @@ func init() {
 }
 
 func c19one(c *harness.Ctx, cs c19Case, r *harness.Rec) {
+	c19SharedRE = cs.shared
+	defer func() { c19SharedRE = false }()
 	var want []runOutcome
 	for _, k := range cs.hist {
 		o, err := soloOutcome(k, cs.mode)
@@ -267,8 +294,8 @@ func c19one(c *harness.Ctx, cs c19Case, r *harness.Rec) {
 			for _, k := range cs.hist {
 				texts = append(texts, c19Alphabet[k])
 			}
-			r.Violation(harness.Violation{Key: key, Desc: fmt.Sprintf("history %v mode %s: %s", cs.hist, modeName(cs.mode), desc),
-				Replay: map[string]interface{}{"kind": "history", "history": cs.hist, "programs": texts, "mode": cs.mode, "choices": h.res.Choices}})
+			r.Violation(harness.Violation{Key: key, Desc: fmt.Sprintf("history %v mode %s shared-runtime-environment=%v: %s", cs.hist, modeName(cs.mode), cs.shared, desc),
+				Replay: map[string]interface{}{"kind": "history", "history": cs.hist, "programs": texts, "mode": cs.mode, "shared": cs.shared, "choices": h.res.Choices}})
 		}
 		for i := range cs.hist {
 			if h.outcomes[i].key() != want[i].key() {
